@@ -59,6 +59,20 @@ static void ref_stage1(const ref_dcfg *c, const uint8_t *in, size_t n, pstage *s
 }
 /* UTF-8 by code-point arithmetic (overlong forms are accepted and flagged).  Returns 1 if every sequence is well-formed. */
 static unsigned bestfit_cp(const ref_dcfg *c, unsigned cp) { if (cp < 0x100) return cp; if (cp > 0xffff) return c->bestfit_repl; return bestfit16(c, cp >> 8, cp & 0xff); }
+/* does a structurally complete overlong form / a full-width code point occur at ANY alignment of the byte string?  (policy-independent: whatever
+ * the decoder does after an ill-formed sequence, it can only see one of these alignments) */
+static void occurs_any(const hx_buf *in, int *overlong, int *halffull) {
+    *overlong = *halffull = 0;
+    for (size_t i = 0; i < in->n; i++) {
+        unsigned b = in->p[i]; int need; unsigned cp, min;
+        if (b >= 0xc0 && b <= 0xdf) { need = 1; cp = b & 0x1f; min = 0x80; } else if (b >= 0xe0 && b <= 0xef) { need = 2; cp = b & 0x0f; min = 0x800; } else if (b >= 0xf0 && b <= 0xf7) { need = 3; cp = b & 0x07; min = 0x10000; } else continue;
+        size_t j = i + 1; int k = 0; while (k < need && j < in->n && (in->p[j] & 0xc0) == 0x80) { cp = (cp << 6) | (in->p[j] & 0x3f); j++; k++; }
+        if (k < need) continue;
+        if (cp < min) *overlong = 1;
+        if (cp >= 0xff00 && cp <= 0xffef) *halffull = 1;
+    }
+}
+static int STRICT_RECOVERY = 1;   /* compare bytes and the overlong / full-width indicators after an ill-formed sequence too (recovery policy as commented in the code) */
 static int ref_stage2(const ref_dcfg *c, const hx_buf *in, hx_buf *out, unsigned *fl) {
     int wellformed = 1, multi = 0; size_t i = 0;
     hb_reset(out);
@@ -75,7 +89,9 @@ static int ref_stage2(const ref_dcfg *c, const hx_buf *in, hx_buf *out, unsigned
             if (k == 0 && ((b == 0xf4 && in->p[j] > 0x8f) || (b == 0xed && in->p[j] > 0x9f))) break;
             cp = (cp << 6) | (in->p[j] & 0x3f); j++; k++;
         }
-        if (k < need) { *fl |= RF_UTF8_INVALID; wellformed = 0; hb_putc(out, c->bestfit ? (int) c->bestfit_repl : (int) b); i++; continue; }
+        /* ill-formed: as the code documents ("replacing one or more invalid bytes ... assume it's the starting byte of the next character"), the bytes
+         * consumed so far become ONE replacement byte and decoding resumes at the offending byte */
+        if (k < need) { *fl |= RF_UTF8_INVALID; wellformed = 0; if (c->bestfit) hb_putc(out, (int) c->bestfit_repl); else hb_put(out, in->p + i, j - i); i = j; continue; }
         multi = 1;
         if (cp < min) *fl |= RF_UTF8_OVERLONG;
         if (cp >= 0xff00 && cp <= 0xffef) *fl |= RF_HALF_FULL;
@@ -111,11 +127,11 @@ static void ref_dotseg(const hx_buf *src, hx_buf *out) {
         hb_put(out, in.p + p, q - p); p = q; synthetic = 0;
     }
 }
-typedef struct refout { hx_buf s1, s2, s3; unsigned fl; int wellformed; } refout;
+typedef struct refout { hx_buf s1, s2, s3; unsigned fl, fl1; int wellformed; } refout;   /* fl1: indicators raised by stage 1 (percent / %u decoding) alone */
 static void ref_path(const ref_dcfg *c, const uint8_t *in, size_t n, refout *r) {
     static pstage st; hb_reset(&st.out); st.prev_sep = 0; st.c = c; r->fl = 0;
     ref_stage1(c, in, n, &st, &r->fl);
-    hb_reset(&r->s1); hb_put(&r->s1, st.out.p, st.out.n);
+    hb_reset(&r->s1); hb_put(&r->s1, st.out.p, st.out.n); r->fl1 = r->fl;
     r->wellformed = ref_stage2(c, &r->s1, &r->s2, &r->fl);
     ref_dotseg(&r->s2, &r->s3);
 }
@@ -192,14 +208,19 @@ static int run_one(int ci, int verbose) {
       if (bstr_len(again) != gn || memcmp(bstr_ptr(again), got, gn)) { viol("not_idempotent", ci, "normalising the normalised path again changes it"); bad = 1; }
       hx_in_lib = 1; bstr_free(again); hx_in_lib = 0; }
     /* (2) equality with the reference; bytes only when every UTF-8 sequence is well-formed (recovery after an ill-formed one is not documented) */
-    if (RO.wellformed && (gn != RO.s3.n || (gn && memcmp(got, RO.s3.p, gn)))) {
+    if ((STRICT_RECOVERY && C[ci].r.bestfit) ? (gn != RO.s3.n || (gn && memcmp(got, RO.s3.p, gn))) : (RO.wellformed && (gn != RO.s3.n || (gn && memcmp(got, RO.s3.p, gn))))) {
         static hx_buf e1, e2; hb_reset(&e1); hb_esc(&e1, got, gn); hb_term(&e1); hb_reset(&e2); hb_esc(&e2, RO.s3.p, RO.s3.n); hb_term(&e2);
         viol("path_differs", ci, "normalised path is \"%s\", the documented pipeline gives \"%s\"", (char *) e1.p, (char *) e2.p); bad = 1;
     }
     /* (3) indicators */
     for (size_t f = 0; f < sizeof FL / sizeof FL[0]; f++) {
         /* after an ill-formed sequence the resynchronisation point is not documented, so what later bytes "are" (overlong? full-width?) is not judged */
-        if (!RO.wellformed && (FL[f].ref == RF_UTF8_OVERLONG || FL[f].ref == RF_HALF_FULL)) continue;
+        if (!RO.wellformed && !(STRICT_RECOVERY && C[ci].r.bestfit) && (FL[f].ref == RF_UTF8_OVERLONG || FL[f].ref == RF_HALF_FULL)) {
+            /* the validating variant resumes differently and says nothing about it: only "not spurious" is judged, against every alignment */
+            int ov, hf; occurs_any(&RO.s1, &ov, &hf);
+            if ((tx->flags & FL[f].lib) != 0 && !(RO.fl1 & FL[f].ref) && !(FL[f].ref == RF_UTF8_OVERLONG ? ov : hf)) { char k[64]; snprintf(k, sizeof k, "flag_%s_spurious", FL[f].name); viol(k, ci, "indicator %s is set, the construct occurs at no alignment of the decoded bytes", FL[f].name); bad = 1; }
+            continue;
+        }
         int g = (tx->flags & FL[f].lib) != 0, w = (RO.fl & FL[f].ref) != 0;
         if (g != w) { char k[64]; snprintf(k, sizeof k, "flag_%s_%s", FL[f].name, g ? "spurious" : "missing"); viol(k, ci, "indicator %s is %s, the construct %s in the input", FL[f].name, g ? "set" : "not set", w ? "occurs" : "does not occur"); bad = 1; }
     }
@@ -215,8 +236,8 @@ static hx_script S; static hx_obs O; static ref_dcfg BR;
 static void bind_inspect(htp_connp_t *c, hx_obs *o, void *ctx) {
     (void) o; (void) ctx; htp_tx_t *tx = htp_list_get(c->conn->transactions, 0); if (!tx || !tx->parsed_uri || !tx->parsed_uri->path) return;
     ref_path(&BR, cur, (size_t) curlen, &RO);
-    if (RO.wellformed && (bstr_len(tx->parsed_uri->path) != RO.s3.n || memcmp(bstr_ptr(tx->parsed_uri->path), RO.s3.p, RO.s3.n))) hx_verdict_add("C12", "binding_path", "through a real request the path differs from the reference");
-    for (size_t f = 0; f < sizeof FL / sizeof FL[0]; f++) if (!(!RO.wellformed && (FL[f].ref == RF_UTF8_OVERLONG || FL[f].ref == RF_HALF_FULL)) && ((tx->flags & FL[f].lib) != 0) != ((RO.fl & FL[f].ref) != 0)) hx_verdict_add("C12", "binding_flag", "through a real request indicator %s disagrees with the reference", FL[f].name);
+    if ((STRICT_RECOVERY || RO.wellformed) && (bstr_len(tx->parsed_uri->path) != RO.s3.n || memcmp(bstr_ptr(tx->parsed_uri->path), RO.s3.p, RO.s3.n))) hx_verdict_add("C12", "binding_path", "through a real request the path differs from the reference");
+    for (size_t f = 0; f < sizeof FL / sizeof FL[0]; f++) if (!(!STRICT_RECOVERY && !RO.wellformed && (FL[f].ref == RF_UTF8_OVERLONG || FL[f].ref == RF_HALF_FULL)) && ((tx->flags & FL[f].lib) != 0) != ((RO.fl & FL[f].ref) != 0)) hx_verdict_add("C12", "binding_flag", "through a real request indicator %s disagrees with the reference", FL[f].name);
 }
 
 static int worker(int argc, char **argv) {
